@@ -383,9 +383,10 @@ private:
                     break;
                 }
             } else if (c == '/') {
-                /* Skip double separator (keep root) */
-                nextc();
-                leadsep = false;
+                /* Skip double separator (keep root): after a leading separator the second one
+                 * becomes the leading separator, otherwise it is a trailing separator */
+                if (!leadsep)
+                    nextc();
                 continue;
             }
 
